@@ -76,12 +76,16 @@ Definition pure_binary (n:string) (l r:rvalue) : option rvalue :=
 Ltac crack H := repeat (first [ progress cbv beta iota in H
                               | match type of H with match ?x with _ => _ end = _ => destruct x end ]; try discriminate H).
 
+(* the one name a program must not use for a variable of its own: the switch construct keeps its bookkeeping in the frame's variable
+   of that name (ops_generic.cpp: "___switch"); the frames match the reference scopes on every other name *)
+Definition hidden (k:string) : bool := String.eqb k "___switch".
+
 (* big-step evaluation of a frame-free expression in a fixed environment: [loc] resolves local names, [glob] global ones *)
 Inductive pev (loc glob : string -> option rvalue) : expr -> rvalue -> Prop :=
 | PNum n : pev loc glob (ENum n) (RNum n)
 | PBool b : pev loc glob (EBool b) (RBool b)
 | PStr s : pev loc glob (EStr s) (RStr s)
-| PVarL n v : is_local n = true -> loc (lower n) = Some v -> is_data v = true -> pev loc glob (EVar n) v
+| PVarL n v : is_local n = true -> hidden (lower n) = false -> loc (lower n) = Some v -> is_data v = true -> pev loc glob (EVar n) v
 | PVarG n v : is_local n = false -> glob (lower n) = Some v -> is_data v = true -> pev loc glob (EVar n) v
 | PArr l vs : pevs loc glob l vs -> pev loc glob (EArr l) (RArr vs)
 | PUn n a va v : (forall k, a <> ENum k) -> pev loc glob a va -> pure_unary (lower n) va = Some v -> pev loc glob (EUnary n a) v
